@@ -5,9 +5,11 @@
     Model/Eval.v on the cache-free reference instance (what labrea computes inside
     [labrea.cache.disabled()]); all theorems hold for ALL user code [u], ALL resolution budgets
     [fuel], ALL well-formed dictionaries (unique keys per section) and ALL expressions of the
-    boolean fragment [frag] (Proofs/FrameProofs.v: every constructor except Map, Template nodes,
-    AllOptions and non-empty pre-set dictionaries — those are covered by
-    the correspondence + oracle of harness/props/c03.py only).
+    boolean fragment [frag] (Proofs/FrameProofs.v: every constructor except Map, AllOptions and
+    non-empty pre-set dictionaries — those are covered by the correspondence + oracle of
+    harness/props/c03.py only).  [no_par o] (Proofs/TemplateFrame.v): no top-level option name lies in
+    the range the MODEL reserves for Template parameters (names >= 10^6; the harness never
+    generates one, and [covered_ops] checks it).
 
     [clean_at u fuel e o] is the computed side condition (Model/EvalRun.v): every option the
     evaluation and the key inspection found PRESENT is reported by keys(), no lookup hit a scalar
@@ -16,7 +18,7 @@
 From Coq Require Import List NArith ZArith Bool.
 Import ListNotations.
 From LV Require Import Model.Base Model.Template Model.Eval Model.Derived Model.EvalRun
-  Proofs.FrameProofs Proofs.FrameTheorem Proofs.RestrictProofs Proofs.SufficientProofs
+  Proofs.FrameProofs Proofs.TemplateFrame Proofs.FrameTheorem Proofs.RestrictProofs Proofs.SufficientProofs
   Proofs.KeysPresent Proofs.CleanProofs Proofs.FingerprintProofs.
 
 Notation evalN u fuel := (eval unit nc_find nc_store cfg_nc u fuel (fun _ _ => true)).
@@ -34,7 +36,7 @@ Print Assumptions C03_keys_present_only.
 (** Evaluating on o restricted to exactly the reported keys gives the same outcome (value or
     failure cause, and the same option reads) and reports the same keys. *)
 Theorem C03_keys_sufficient : forall u fuel e o K lk,
-  frag e = true -> wf_dict o = true -> clean_at u fuel e o = true ->
+  frag e = true -> wf_dict o = true -> no_par o = true -> clean_at u fuel e o = true ->
   keysN u fuel e o tt = (Ok K, tt, lk) ->
   effects_opt_off (restrict o K) = effects_opt_off o ->
   obs (evalN u fuel e (restrict o K) tt) = obs (evalN u fuel e o tt) /\
@@ -46,7 +48,7 @@ Print Assumptions C03_keys_sufficient.
     looks up (for evaluate, validate and keys alike) — so changing, deleting or adding any
     other key changes nothing. *)
 Theorem C03_frame : forall u fuel e o o',
-  frag e = true -> wf_dict o = true -> wf_dict o' = true ->
+  frag e = true -> wf_dict o = true -> wf_dict o' = true -> no_par o = true -> no_par o' = true ->
   effects_opt_off o' = effects_opt_off o ->
   (agree_keys o o' (reads_of (snd (evalN u fuel e o tt))) ->
      obs (evalN u fuel e o' tt) = obs (evalN u fuel e o tt)) /\
@@ -54,7 +56,7 @@ Theorem C03_frame : forall u fuel e o o',
      obs (validateN u fuel e o' tt) = obs (validateN u fuel e o tt)) /\
   (agree_keys o o' (reads_of (snd (keysN u fuel e o tt))) ->
      obs (keysN u fuel e o' tt) = obs (keysN u fuel e o tt)).
-Proof. intros u fuel e o o' Hf Hw Hw' Hsw. exact (frame_all u fuel e Hf o o' Hw Hw' Hsw). Qed.
+Proof. intros u fuel e o o' Hf Hw Hw' Hnp Hnp' Hsw. exact (frame_all u fuel e Hf o o' Hw Hw' Hnp Hnp' Hsw). Qed.
 Print Assumptions C03_frame.
 
 (** The fingerprint is a function of the reported keys and their values alone: identical for
